@@ -284,6 +284,11 @@ func (c *Channel) Invoke(ctx context.Context, method string, req, resp interface
 			verifhook.At("invoke.client.read")
 			if !ok {
 				// no more messages
+				if err := ctx.Err(); err != nil {
+					// the server goroutine skips frames once the context is
+					// done, so what we have seen may be incomplete
+					return internal.TranslateContextError(err)
+				}
 				if !gotResponse {
 					return io.EOF
 				}
